@@ -278,7 +278,8 @@ func pages(input OmegaInput) (output OmegaOutput) {
 	}
 
 	// otherwise if p < 16 or p + c >= 2^32 / ZP or i in N_p...+c : (u_A)_i = nil
-	if r > 4 || p < 16 || p+c >= (1<<32)/ZP {
+	// (p + c as integers: neither operand may exceed 2^32/ZP, so the sum cannot wrap)
+	if r > 4 || p < 16 || p >= (1<<32)/ZP || c >= (1<<32)/ZP || p+c >= (1<<32)/ZP {
 		input.VM.Registers[7] = HUH
 		return OmegaOutput{
 			ExitReason: ExitContinue,
@@ -286,22 +287,30 @@ func pages(input OmegaInput) (output OmegaOutput) {
 		}
 	}
 
-	if r > 2 && !isReadable(p, c, input.Addition.IntegratedPVMMap[n].Memory) {
-		input.VM.Registers[7] = HUH
-		return OmegaOutput{
-			ExitReason: ExitContinue,
-			Addition:   input.Addition,
-		}
-	}
-
-	// otherwise : ok
-	// u_v
-	if r >= 3 {
+	// r > 2 keeps the contents, so every page p..p+c must already be accessible (p, c are page numbers)
+	if r > 2 {
+		innerPages := input.Addition.IntegratedPVMMap[n].Memory.Pages
 		for i := uint32(p); i < uint32(p+c); i++ {
-			input.Addition.IntegratedPVMMap[n].Memory.Pages[i] = &Page{
-				Value:  make([]byte, ZP),
-				Access: MemoryInaccessible,
+			if page, found := innerPages[i]; !found || page.Access == MemoryInaccessible {
+				input.VM.Registers[7] = HUH
+				return OmegaOutput{
+					ExitReason: ExitContinue,
+					Addition:   input.Addition,
+				}
 			}
+		}
+		// otherwise : ok ; u_v is unchanged, only the access changes
+		access := MemoryReadOnly
+		if r == 4 {
+			access = MemoryReadWrite
+		}
+		for i := uint32(p); i < uint32(p+c); i++ {
+			innerPages[i].Access = access
+		}
+		input.VM.Registers[7] = OK
+		return OmegaOutput{
+			ExitReason: ExitContinue,
+			Addition:   input.Addition,
 		}
 	}
 
@@ -313,7 +322,7 @@ func pages(input OmegaInput) (output OmegaOutput) {
 	}
 
 	// u_a
-	if r == 1 || r == 3 {
+	if r == 1 {
 		for i := uint32(p); i < uint32(p+c); i++ {
 			input.Addition.IntegratedPVMMap[n].Memory.Pages[i] = &Page{
 				Value:  make([]byte, ZP),
@@ -322,7 +331,7 @@ func pages(input OmegaInput) (output OmegaOutput) {
 		}
 	}
 
-	if r == 2 || r == 4 {
+	if r == 2 {
 		for i := uint32(p); i < uint32(p+c); i++ {
 			input.Addition.IntegratedPVMMap[n].Memory.Pages[i] = &Page{
 				Value:  make([]byte, ZP),
